@@ -6,6 +6,7 @@ package main
 import (
 	"bytes"
 	"compress/gzip"
+	"errors"
 	"fmt"
 	"io"
 	"os"
@@ -30,7 +31,9 @@ func genAE(r *vh.Rand) string {
 	case 0:
 		return ""
 	case 2, 3, 4:
-		return r.Pick("gzip", "br", "gzip, br", "br,gzip", "gzip, deflate, br", "deflate, gzip", "GZIP", "identity, br")
+		return r.Pick("gzip", "br", "gzip, br", "br,gzip", "gzip, deflate, br", "deflate, gzip", "GZIP", "identity, br",
+			"*", "*;q=0", "gzip, *;q=0", "identity;q=0", "identity;q=0, br", "gzip, gzip", "gzip;q=0, gzip", "gzip, gzip;q=0",
+			"br;q=1.0, gzip;q=0.8, *;q=0.1", "gzip , br", "BR", "gzip,", "gzip;q=0.0001")
 	case 1: // malformed / unusual shapes
 		return r.Pick("gzip br", "foo gzip", "gzip\tbar", "xgzip", "gzip-br", "gzip;", ",gzip", "gzip,", " gzip", "gzip ", "br ;q=0", ",,", "brotli", "gzip=1", "a gzip b", "gzip/br")
 	}
@@ -77,7 +80,32 @@ func genH(r *vh.Rand) string {
 	if len(rs) > 0 {
 		rules = strings.Join(rs, ",")
 	}
-	return fmt.Sprintf("h ae=%s;ce=%s;cl=%d;prod=%d;rules=%s", vh.Hex([]byte(ae)), vh.Hex([]byte(ce)), cl, prod, rules)
+	op := fmt.Sprintf("h ae=%s;ce=%s;cl=%d;prod=%d;rules=%s", vh.Hex([]byte(ae)), vh.Hex([]byte(ce)), cl, prod, rules)
+	if r.Chance(1, 2) { // response / request attributes the handler is not supposed to be confused by
+		st, cr := 200, 0
+		switch r.Intn(8) {
+		case 0:
+			st = 204
+		case 1:
+			st = 304
+		case 2:
+			st, cr = 206, 1
+		case 3:
+			st = r.Range(400, 404)
+		}
+		mth := "G"
+		if r.Chance(1, 6) {
+			mth = "H"
+		}
+		vy := r.Pick("-", "-", "Accept-Encoding", "Origin", "accept-encoding, Origin")
+		ae2 := "-"
+		if r.Chance(1, 5) {
+			ae2 = vh.Hex([]byte(genAE(r)))
+		}
+		op += fmt.Sprintf(";st=%d;mth=%s;cr=%d;et=%d;vy=%s;ae2=%s", st, mth, cr, r.Intn(2), vh.Hex([]byte(vy)), ae2)
+		op = strings.Replace(op, ";vy=2d;", ";vy=-;", 1)
+	}
+	return op
 }
 
 func genF(r *vh.Rand) string {
@@ -168,8 +196,12 @@ func genF(r *vh.Rand) string {
 		}
 		ps = append(ps, strconv.Itoa(p))
 	}
-	return fmt.Sprintf("f enc=%s;q=%d;fs=%s;chunks=%s;kind=%d;seed=%d;reads=%s;eofw=%d;max=%d",
-		enc, q, fs, ch, r.Intn(3), r.Intn(1<<30), strings.Join(ps, ","), r.Intn(2), 400)
+	fail := 0
+	if r.Chance(1, 8) {
+		fail = 1
+	}
+	return fmt.Sprintf("f enc=%s;q=%d;fs=%s;chunks=%s;kind=%d;seed=%d;reads=%s;eofw=%d;max=%d;fail=%d",
+		enc, q, fs, ch, r.Intn(3), r.Intn(1<<30), strings.Join(ps, ","), r.Intn(2), 400, fail)
 }
 
 // genR: a rule FILE (cmd, Quality, FlushSize incl. boundaries / missing) + a request + a body.
@@ -200,8 +232,20 @@ func genR(r *vh.Rand) string {
 		fs = r.Pick("64", "100", "512", "1024", "4096", "777")
 	}
 	ae := r.Pick("gzip", "br", "gzip, br", "br, gzip", "gzip, br", "identity", "deflate, br", "GZIP, deflate")
-	return fmt.Sprintf("r cmd=%s;q=%s;fs=%s;ae=%s;chunks=%s;kind=%s;seed=%s;reads=%s;eofw=%s;max=%s",
-		cmd, q, fs, vh.Hex([]byte(ae)), kv["chunks"], kv["kind"], kv["seed"], kv["reads"], kv["eofw"], kv["max"])
+	op := fmt.Sprintf("r cmd=%s;q=%s;fs=%s;ae=%s;chunks=%s;kind=%s;seed=%s;reads=%s;eofw=%s;max=%s;fail=%s",
+		cmd, q, fs, vh.Hex([]byte(ae)), kv["chunks"], kv["kind"], kv["seed"], kv["reads"], kv["eofw"], kv["max"], kv["fail"])
+	if r.Chance(1, 3) { // reload: a second rule file is offered to the same module before the request
+		cmd2 := r.Pick("G", "B", "G", "B", "X", "m")
+		q2 := r.Pick("4", "4", "4", "0", "9", "5", "12", "-5", "m")
+		fs2 := r.Pick("64", "512", "4096", "1024", "100", "777", "0", "63", "4097", "m")
+		if cmd2 == "G" || cmd2 == "B" {
+			if r.Chance(1, 2) {
+				q2, fs2 = "4", r.Pick("64", "512", "4096", "100")
+			}
+		}
+		op += fmt.Sprintf(";cmd2=%s;q2=%s;fs2=%s", cmd2, q2, fs2)
+	}
+	return op
 }
 
 func gen(r *vh.Rand) string {
@@ -279,6 +323,28 @@ func execH(rest string) string {
 	if kv["cl"] == "1" {
 		res.Header.Set("Content-Length", "11")
 	}
+	ext := kv["st"] != ""
+	if ext {
+		if st, err := strconv.Atoi(kv["st"]); err == nil {
+			res.StatusCode = st
+		}
+		req.HttpRequest.Method = "GET"
+		if kv["mth"] == "H" {
+			req.HttpRequest.Method = "HEAD"
+		}
+		if kv["cr"] == "1" {
+			res.Header.Set("Content-Range", "bytes 0-10/100")
+		}
+		if kv["et"] == "1" {
+			res.Header.Set("ETag", "\"abc\"")
+		}
+		if vy, ok := vh.UnHex(kv["vy"]); ok && len(vy) > 0 {
+			res.Header.Set("Vary", string(vy))
+		}
+		if a2, ok := vh.UnHex(kv["ae2"]); ok && kv["ae2"] != "-" && kv["ae2"] != "" && len(ae) > 0 {
+			req.HttpRequest.Header.Add("Accept-Encoding", string(a2))
+		}
+	}
 	orig := io.NopCloser(strings.NewReader("hello world"))
 	res.Body = orig
 	m.VerifHandle(req, res)
@@ -290,19 +356,45 @@ func execH(rest string) string {
 	if _, has := res.Header["Content-Length"]; has {
 		cl = 1
 	}
-	return fmt.Sprintf("enc=%s;ce=%s;cl=%d", kind, vh.Hex([]byte(res.Header.GetDirect("Content-Encoding"))), cl)
+	out := fmt.Sprintf("enc=%s;ce=%s;cl=%d", kind, vh.Hex([]byte(res.Header.GetDirect("Content-Encoding"))), cl)
+	if ext {
+		et := "0"
+		if v, has := res.Header["Etag"]; has {
+			et = "w"
+			if len(v) == 1 && v[0] == "\"abc\"" {
+				et = "1"
+			}
+		}
+		vy := "-"
+		if v, has := res.Header["Vary"]; has {
+			vy = vh.Hex([]byte(strings.Join(v, ",")))
+		}
+		out += fmt.Sprintf(";et=%s;vy=%s", et, vy)
+	}
+	return out
 }
 
 // chunkSource serves the body in the given chunk sizes: one Read returns (a prefix of) the head chunk.
 type chunkSource struct {
 	chunks [][]byte
 	eofw   bool
+	fail   bool  // the source ends with an error instead of io.EOF
+	closed int   // number of Close calls
 	got    []int // non-empty reads since the last reset
+}
+
+var errBackend = errors.New("backend reset")
+
+func (s *chunkSource) end() error {
+	if s.fail {
+		return errBackend
+	}
+	return io.EOF
 }
 
 func (s *chunkSource) Read(p []byte) (int, error) {
 	if len(s.chunks) == 0 {
-		return 0, io.EOF
+		return 0, s.end()
 	}
 	if len(p) == 0 {
 		return 0, nil
@@ -318,11 +410,11 @@ func (s *chunkSource) Read(p []byte) (int, error) {
 		s.got = append(s.got, n)
 	}
 	if s.eofw && len(s.chunks) == 0 {
-		return n, io.EOF
+		return n, s.end()
 	}
 	return n, nil
 }
-func (s *chunkSource) Close() error { return nil }
+func (s *chunkSource) Close() error { s.closed++; return nil }
 
 func body(kind, seed, n int) []byte {
 	r := vh.NewRand(uint64(seed))
@@ -379,7 +471,7 @@ func execF(rest string) string {
 		return "bad-op"
 	}
 	data := body(kind, seed, total)
-	src := &chunkSource{eofw: kv["eofw"] == "1"}
+	src := &chunkSource{eofw: kv["eofw"] == "1", fail: kv["fail"] == "1"}
 	off := 0
 	for _, c := range chunks {
 		src.chunks = append(src.chunks, data[off:off+c])
@@ -467,7 +559,7 @@ func driveFilter(f io.ReadCloser, src *chunkSource, data []byte, ps []int, mx in
 	if len(recs) > 0 {
 		r = strings.Join(recs, ",")
 	}
-	return fmt.Sprintf("r=%s;eof=%d;dec=%s", r, eof, dec)
+	return fmt.Sprintf("r=%s;eof=%d;dec=%s;close=%d", r, eof, dec, src.closed)
 }
 
 
@@ -494,7 +586,7 @@ func buildSource(kv map[string]string) (src *chunkSource, data []byte, ps []int,
 		return nil, nil, nil, 0, false
 	}
 	data = body(kind, seed, total)
-	src = &chunkSource{eofw: kv["eofw"] == "1"}
+	src = &chunkSource{eofw: kv["eofw"] == "1", fail: kv["fail"] == "1"}
 	off := 0
 	for _, c := range chunks {
 		src.chunks = append(src.chunks, data[off:off+c])
@@ -525,45 +617,78 @@ func execR(rest string) string {
 			}
 		}
 	}
-	cmd := ""
-	switch kv["cmd"] {
-	case "G":
-		cmd = "\"Cmd\": \"GZIP\""
-	case "B":
-		cmd = "\"Cmd\": \"BROTLI\""
-	case "X":
-		cmd = "\"Cmd\": \"DEFLATE\""
-	case "m":
-		cmd = "\"Note\": \"no cmd\""
-	default:
+	writeRule := func(c, q, f string) (string, bool) {
+		cmd := ""
+		switch c {
+		case "G":
+			cmd = "\"Cmd\": \"GZIP\""
+		case "B":
+			cmd = "\"Cmd\": \"BROTLI\""
+		case "X":
+			cmd = "\"Cmd\": \"DEFLATE\""
+		case "m":
+			cmd = "\"Note\": \"no cmd\""
+		default:
+			return "", false
+		}
+		js := fmt.Sprintf("{\"Version\": \"verif\", \"Config\": {\"%s\": [{\"Cond\": \"default_t()\", \"Action\": {%s%s%s}}]}}",
+			product, cmd, jsonField("Quality", q), jsonField("FlushSize", f))
+		fh, err := os.CreateTemp("", "verif-c54-*.json")
+		if err != nil {
+			return "", false
+		}
+		fh.WriteString(js)
+		fh.Close()
+		return fh.Name(), true
+	}
+	path, ok := writeRule(kv["cmd"], kv["q"], kv["fs"])
+	if !ok {
 		return "bad-op"
 	}
-	js := fmt.Sprintf("{\"Version\": \"verif\", \"Config\": {\"%s\": [{\"Cond\": \"default_t()\", \"Action\": {%s%s%s}}]}}",
-		product, cmd, jsonField("Quality", kv["q"]), jsonField("FlushSize", kv["fs"]))
-	fh, err := os.CreateTemp("", "verif-c54-*.json")
-	if err != nil {
-		return "err:tmpfile"
-	}
-	path := fh.Name()
-	fh.WriteString(js)
-	fh.Close()
 	defer os.Remove(path)
 	var m *mod_compress.ModuleCompress
 	load := "ok"
-	func() {
-		defer func() {
-			if e := recover(); e != nil {
-				load = "panic"
+	_, has2 := kv["cmd2"]
+	guard := func(f func() error) string {
+		res := "ok"
+		func() {
+			defer func() {
+				if e := recover(); e != nil {
+					res = "panic"
+				}
+			}()
+			if err := f(); err != nil {
+				res = "err"
 			}
 		}()
-		var err error
-		m, err = mod_compress.VerifLoadRuleFile(path)
-		if err != nil {
-			load = "err"
+		return res
+	}
+	if !has2 {
+		load = guard(func() error {
+			var err error
+			m, err = mod_compress.VerifLoadRuleFile(path)
+			return err
+		})
+		if load != "ok" {
+			return "load=" + load + ";enc=none;raw=na"
 		}
-	}()
-	if load != "ok" {
-		return "load=" + load + ";enc=none;raw=na"
+	} else {
+		for _, k := range []string{"q2", "fs2"} {
+			if kv[k] != "m" {
+				if _, err := strconv.Atoi(kv[k]); err != nil {
+					return "bad-op"
+				}
+			}
+		}
+		path2, ok := writeRule(kv["cmd2"], kv["q2"], kv["fs2"])
+		if !ok {
+			return "bad-op"
+		}
+		defer os.Remove(path2)
+		m, _ = mod_compress.VerifNewModule("", nil)
+		l1 := guard(func() error { return m.VerifReload(path) })
+		l2 := guard(func() error { return m.VerifReload(path2) })
+		load = l1 + "/" + l2
 	}
 	req := new(bfe_basic.Request)
 	req.HttpRequest = new(bfe_http.Request)
@@ -585,15 +710,18 @@ func execR(rest string) string {
 	if kind == "none" {
 		got, err := io.ReadAll(res.Body)
 		raw := "ok"
+		if src.fail && err == errBackend {
+			err = nil // the untouched body reports the backend's error itself
+		}
 		if err != nil || !bytes.Equal(got, data) || res.Header.GetDirect("Content-Encoding") != "" {
 			raw = "bad"
 		}
-		return "load=ok;enc=none;raw=" + raw
+		return "load=" + load + ";enc=none;raw=" + raw
 	}
 	if ce := res.Header.GetDirect("Content-Encoding"); ce != kind {
-		return "load=ok;enc=" + kind + ";raw=na;ce-mismatch"
+		return "load=" + load + ";enc=" + kind + ";raw=na;ce-mismatch"
 	}
-	return "load=ok;enc=" + kind + ";raw=na;" + driveFilter(res.Body, src, data, ps, mx, kind == "gzip")
+	return "load=" + load + ";enc=" + kind + ";raw=na;" + driveFilter(res.Body, src, data, ps, mx, kind == "gzip")
 }
 
 func exec(op string) string {
